@@ -241,9 +241,22 @@ def value_passthrough(chk: Check, rule: str) -> None:
         val = ps[off + 1]
         n += 1
         chk.saw(f)
+        import re as _re
+
+        def _is_val(name: str) -> bool:
+            # the parameter, or a later binding of it (the normal form names those <val>_v<k>)
+            return name == val or _re.fullmatch(_re.escape(val) + r"_v\d+", name) is not None
         rebinds = [x for x in walk_no_nested(f.node) if isinstance(x, (ast.Assign, ast.AugAssign, ast.AnnAssign))
-                   and any(isinstance(t, ast.Name) and t.id == val
+                   and any(isinstance(t, ast.Name) and _is_val(t.id)
                            for t in (x.targets if isinstance(x, ast.Assign) else [x.target]))]
+        # ``val = val.uuid`` (a wrapper replaced by the value it stands for) is not a modification
+        def _projection(v: ast.AST) -> bool:
+            if isinstance(v, ast.IfExp):
+                return _projection(v.body) and _projection(v.orelse)
+            if isinstance(v, ast.Name):
+                return _is_val(v.id)
+            return isinstance(v, ast.Attribute) and _is_val((attr_path(v) or ("",))[0])
+        rebinds = [x for x in rebinds if not (isinstance(x, ast.Assign) and _projection(x.value))]
         chk.ob(rule, "%s.encode:value-unmodified" % c.qualname, not rebinds,
                f.loc(rebinds[0]) if rebinds else f.loc(),
                "%s.encode rebinds its value argument (%s) before writing it: some values are no "
